@@ -7,11 +7,20 @@ PID = "C08"
 
 
 def jobs(tier):
-    return [dict(name=e.name, entry=e.name, backend="snarkjs", cfg=dict(n=4, r=2, guard=None, bound=None), tier=tier,
-                 weight=len(e.ins)) for e in CAT8.build(4, tier)]
+    js = [dict(name=e.name, entry=e.name, backend="snarkjs", cfg=dict(n=4, r=2, guard=None, bound=None), tier=tier,
+               weight=len(e.ins), catalogue="checks.cat_c08", pid=PID, analysis="obs") for e in CAT8.build(4, tier)]
+    # the guard wires built for nested regions must not depend on the condition values (one circuit for all of them)
+    for nm in ("hist_G[G]_e0", "hist_G[P]_e0", "hist_P[G]_e0", "hist_G[I]_e0", "hist_GG_e0", "hist_G[G]G_e0"):
+        c1 = dict(n=4, r=2, guard=None, bound=None, want_ref=False, assume_bits=["c0", "c1", "c2", "c3"])
+        js.append(dict(name=nm + "/trace", entry=nm, backend="snarkjs", cfg=c1, cfgs=[c1], tier=tier, weight=3,
+                       catalogue="checks.cat_c08", pid=PID, analysis="trace", trace_results=False))
+    return js
 
 
 def run_job(env, spec):
+    if spec.get("analysis") == "trace":
+        from . import c06
+        return c06.run_job(env, spec)
     entry = CAT8.by_name(4, "thorough")[spec["entry"]]
     return run_obs_job(PID, env, spec, entry, "checks.cat_c08")
 
